@@ -2221,6 +2221,20 @@ class Recipe:
         if self.locked:
             raise RuntimeError("Recipe has already been baked.")
 
+        # A refused bake leaves the recipe as it was, otherwise a later bake would perform the steps a second time.
+        saved_recipe = (dict(self.results), set(self.used), dict(self.stages), self.current_stage)
+        saved_steps = [dict(vars(step), frm=list(step.frm), to=list(step.to), trash=dict(step.trash),
+                            objects_used=set(step.objects_used), substances_used=set(step.substances_used))
+                       for step in self.steps]
+        try:
+            return self._bake()
+        except Exception:
+            self.results, self.used, self.stages, self.current_stage = saved_recipe
+            for step, saved_step in zip(self.steps, saved_steps):
+                vars(step).update(saved_step)
+            raise
+
+    def _bake(self) -> dict[str, Container | Plate]:
         # Implicitly end the current stage
         if self.current_stage != 'all':
             self.end_stage(self.current_stage)
